@@ -324,6 +324,36 @@ def template_promo(rng):
     return fen_of(b, "w")
 
 
+def template_promo_castle(rng):
+    """a pawn on the seventh that can take the opponent's castling rook (promotion-capture on a rook home square)"""
+    kf = rng.randrange(1, 7)
+    b = {sq(kf, 7): "k"}
+    cas = ""
+    rooks = []
+    if rng.random() < 0.8:
+        rf = rng.randrange(kf + 1, 8)
+        b[sq(rf, 7)] = "r"
+        rooks.append(rf)
+        cas += FILES[rf] if rng.random() < 0.5 or rf != 7 else "k"
+    if rng.random() < 0.7:
+        rf = rng.randrange(0, kf)
+        b[sq(rf, 7)] = "r"
+        rooks.append(rf)
+        cas += FILES[rf] if rng.random() < 0.5 or rf != 0 else "q"
+    if not rooks:
+        return None
+    for rf in rooks:
+        for df in (-1, 1):
+            if on(rf + df, 6) and rng.random() < 0.7 and sq(rf + df, 6) not in b:
+                b[sq(rf + df, 6)] = "P"
+    if not any(v == "P" for v in b.values()):
+        return None
+    free = [s for s in range(0, 40) if s not in b]
+    b[rng.choice(free)] = "K"
+    b = rand_extra(rng, b, rng.randrange(0, 4))
+    return fen_of(b, "w", cas)
+
+
 def template_kxr(rng):
     """king that still holds castling rights next to an enemy man it may capture (or not)"""
     kf = rng.randrange(1, 7)
@@ -375,7 +405,7 @@ def template_endgame(rng):
     return fen_of(b, rng.choice("wb"), "-", "-", rng.choice([0, 0, 3, 40]), rng.randrange(1, 80))
 
 
-TEMPLATES = [("endgame", template_endgame), ("many", template_many_queens), ("kxr", template_kxr), ("pin", template_pin), ("check", template_check), ("ep", template_ep),
+TEMPLATES = [("endgame", template_endgame), ("promo-castle", template_promo_castle), ("many", template_many_queens), ("kxr", template_kxr), ("pin", template_pin), ("check", template_check), ("ep", template_ep),
              ("castle960", template_castle), ("promo", template_promo)]
 
 
